@@ -43,7 +43,7 @@ def r1_fresh_directory(ctx):
     ctx.check(ok, f.qual + "#exclusive", "mkdir(exist_ok=False): creation is atomic and exclusive" if ok else "mkdir(exist_ok=True): an existing directory (another run started in the same second) is silently reused", where=f, node=m)
     ctx.trust("Path.mkdir(exist_ok=False) is atomic-exclusive")
     tries = [a for a in ancestors(m) if isinstance(a, ast.Try)]
-    loops = [a for a in ancestors(m) if isinstance(a, ast.While)]
+    loops = [a for a in ancestors(m) if isinstance(a, (ast.While, ast.For))]
     ok = bool(tries) and bool(loops)
     ctx.check(ok, f.qual + "#retry-loop", "mkdir sits in try inside a retry loop" if ok else "mkdir is not retried in a loop", where=f, node=m)
     if ok:
@@ -54,11 +54,13 @@ def r1_fresh_directory(ctx):
         if okh:
             h = hs[0]
             changed = {dotted(s.target) for s in ast.walk(h) if isinstance(s, ast.AugAssign)} | {dotted(tg) for s in ast.walk(h) if isinstance(s, ast.Assign) for tg in s.targets}
-            # the candidate path expression must depend on something the handler changes
-            pdefs = [v for s_, v in local_defs(f, dotted(m.func.value) or "") if v is not None]
-            dep = set()
-            for v in pdefs:
-                dep |= names_in(v)
+            if isinstance(loops[0], ast.For):
+                # a counting loop: the loop variable is what changes between two attempts
+                changed |= {x.id for x in ast.walk(loops[0].target) if isinstance(x, ast.Name)}
+            # the candidate path expression must depend on something that changes between attempts
+            from sa.astutil import flow_closure
+
+            dep = flow_closure(loops[0], m.func.value)
             okh = bool(changed & dep) and all(contains(loops[0], s_) for s_, v in local_defs(f, dotted(m.func.value) or "")) and not any(isinstance(x, (ast.Return, ast.Break, ast.Raise)) for x in ast.walk(h))
             why = "the handler changes the candidate name and retries" if okh else f"the handler changes {sorted(changed)} but the candidate path depends on {sorted(dep)} / does not retry"
         ctx.check(okh, f.qual + "#handler", why, where=f, node=hs[0] if hs else t)
